@@ -63,14 +63,24 @@ def coq_sources():
     return [os.path.relpath(p, COQ) for p in out]
 
 
-def regen():
-    """Run every translator: /repo source -> coq/Gen/*.v (fail closed)."""
-    sys.path.insert(0, os.path.join(VERIF, "translate"))
-    try:
-        import py2v
-    except ImportError:
-        return []
-    return py2v.regenerate_all(os.path.join(COQ, "Gen"))
+def regen(names=None):
+    """Run translators: /repo source -> coq/Gen/*.v (fail closed: exceptions propagate).
+    names: module names under translate/ (each exposes regenerate_all(gen_dir) or
+    regenerate(gen_dir)); None = every translate/*.py (setup)."""
+    tdir = os.path.join(VERIF, "translate")
+    if tdir not in sys.path:
+        sys.path.insert(0, tdir)
+    if names is None:
+        names = sorted(os.path.basename(p)[:-3] for p in glob.glob(os.path.join(tdir, "*.py")))
+    written = []
+    import importlib
+    for n in names:
+        mod = importlib.import_module(n)
+        f = getattr(mod, "regenerate_all", None) or getattr(mod, "regenerate", None)
+        if f is None:
+            continue
+        written += list(f(os.path.join(COQ, "Gen")) or [])
+    return written
 
 
 def ensure_makefile():
@@ -225,14 +235,14 @@ def grep_gate():
     return bad
 
 
-def prepare(prop, drivers=(), targets=None, model_targets=None):
+def prepare(prop, drivers=(), targets=None, model_targets=None, translators=()):
     """Everything a check needs before running cases.  Returns dict with build status.
     model_targets: the Model/Gen .vo files the drivers are extracted from (default: all);
     targets: the Proofs .vo files Props/<prop>.v requires (default: all)."""
     st = {"regen": [], "make_ok": False, "make_error": None, "drivers": {}, "props": None, "gate": []}
     with lock():
         try:
-            st["regen"] = regen()
+            st["regen"] = regen(list(translators))
         except Exception as e:  # translator fails closed
             st["make_error"] = {"stage": "translator", "msg": str(e), "file": None, "line": None}
         # models + extraction first (they do not depend on proofs)
